@@ -59,6 +59,15 @@ def fmt_string(case, with_limits=True):
 
 
 def make_records(case):
+    recs = _make_records(case)
+    # case["same_as"]: {index: earlier index} - these positions of the records list hold the very same row object
+    for i, j in sorted((int(i), j) for i, j in (case.get("same_as") or {}).items()):
+        if j < i < len(recs):
+            recs[i] = recs[j]
+    return recs
+
+
+def _make_records(case):
     kind = case["kind"]
     if kind == "namedtuple":
         R = collections.namedtuple("R", case["fields"])
@@ -429,8 +438,22 @@ def st_reformat_case(draw, allow_dict=True):
     cur_cols = [dict(c) for c in visible_cols(a)]
     cur_limits = a["limits"]
     for _ in range(draw(st.integers(1, 3))):
-        kind = draw(st.sampled_from(["fmt", "fmt", "remove", "print"]))
-        if kind == "fmt":
+        kind = draw(st.sampled_from(["fmt", "fmt", "remove", "print", "rewidth"]))
+        if kind == "rewidth":
+            # the same columns in the same order, fixed widths; printed; then the widths exchanged among the columns
+            # (the total width of the table stays the same)
+            if a["kind"] == "tuple_nofields" or len(cur_cols) < 2:
+                continue
+            ws = [draw(st.integers(2, 12)) for _ in cur_cols]
+            if len(set(ws)) == 1:
+                ws[0] += 3
+            rot = draw(st.integers(1, len(ws) - 1))
+            for widths, then_print in ((ws, True), (ws[rot:] + ws[:rot], False)):
+                cur_cols = [dict(c, min=w, max=None) for c, w in zip(cur_cols, widths)]
+                steps.append(["fmt", [dict(c) for c in cur_cols], None])
+                if then_print:
+                    steps.append(["print", draw(st.booleans())])
+        elif kind == "fmt":
             if a["kind"] == "tuple_nofields":
                 new_cols = None
             else:
@@ -518,4 +541,14 @@ def st_table_case(draw, max_records=40, allow_dict=True, allow_enum=True, allow_
         names = sorted({fields[c["f"]] for c in vis})
         if len(names) > 1:
             case["skip"] = [draw(st.sampled_from(names))]
+    if nrec >= 2 and draw(st.integers(0, 4)) == 0:
+        # the same row object at several positions of the records list (rows taken from a small pool of objects)
+        npool = draw(st.integers(1, 3))
+        same = {}
+        for i in range(npool, nrec):
+            if draw(st.integers(0, 3)) > 0:
+                j = draw(st.integers(0, npool - 1))
+                same[str(i)] = j
+                records[i] = list(records[j])
+        case["same_as"] = same
     return case
